@@ -99,13 +99,15 @@ pub struct UnsafeProtocolChainConfig {
 
 impl UnsafeProtocolChainConfig {
     pub fn validate(&self) -> Result<ProtocolChainConfig, ContractError> {
-        let channel_id_correct = self.ibc_channel_id.starts_with("channel-")
-            && self
-                .ibc_channel_id
-                .strip_prefix("channel-")
-                .unwrap()
-                .parse::<u64>()
-                .is_ok();
+        // The sequence must be made of decimal digits only:
+        // `parse::<u64>` alone would also accept a leading `+`.
+        let channel_id_correct = self
+            .ibc_channel_id
+            .strip_prefix("channel-")
+            .map(|sequence| {
+                sequence.bytes().all(|b| b.is_ascii_digit()) && sequence.parse::<u64>().is_ok()
+            })
+            .unwrap_or(false);
         if !channel_id_correct {
             return Err(ContractError::IbcChannelConfigWrong {});
         }
